@@ -441,6 +441,67 @@ def Func.vals {K : Type} [Add K] [Mul K] : Func K → K → FieldInfo → List K
       | none => v
     else v
 
+
+/-! ### `MemoryStorage.from_collection` -/
+
+section fromCollection
+variable {K : Type} [Add K] [Sub K] [Mul K] [Neg K] [NatCast K] [LT K] [DecidableLT K] [LE K] [DecidableLE K]
+
+def absK (x : K) : K := if x < ((0 : Nat) : K) then -x else x
+
+/-- `np.allclose(a, b, rtol, atol)` on two 1-d arrays with numpy's broadcasting
+(`|a - b| <= atol + rtol * |b|` elementwise); `none`: the shapes cannot be broadcast (ValueError) -/
+def allclose (rtol atol : K) (a b : List K) : Option Bool :=
+  let close : K → K → Bool := fun x y => decide (absK (x - y) ≤ atol + rtol * absK y)
+  if a.length = b.length then some ((a.zip b).all (fun p => close p.1 p.2))
+  else
+    match a, b with
+    | _, [y] => some (a.all (fun x => close x y))
+    | [x], _ => some (b.all (fun y => close x y))
+    | _, _ => none
+
+/-- `for i, field in enumerate(storage): data[i].append(field)` (memory.py:153-154) -/
+def gatherInto {α : Type} : List (List α) → List α → Nat → Except Err (List (List α))
+  | data, [], _ => .ok data
+  | data, f :: fs, i =>
+    match data[i]? with
+    | none => .error .index
+    | some d => gatherInto (data.set i (d ++ [f])) fs (i + 1)
+
+/-- the loop over `storages[1:]` (memory.py:149-154): times check, then gathering -/
+def gatherAll {F : Type} (rtol atol : K) (times : List K) :
+    List (List (FieldInfo × F)) → List (Store K F) → Except Err (List (List (FieldInfo × F)))
+  | data, [] => .ok data
+  | data, s :: rest =>
+    match allclose rtol atol times s.times with
+    | none => .error .value                       -- numpy cannot broadcast the two time lists
+    | some false => .error .value                 -- `Storages have incompatible times`
+    | some true =>
+      match items s with
+      | .error e => .error e
+      | .ok its =>
+        match gatherInto data (its.map (fun r => (r.2.1, r.2.2))) 0 with
+        | .error e => .error e
+        | .ok data' => gatherAll rtol atol times data' rest
+
+/-- rows a field contributes to a collection: `dim ** rank` = product of the tensor axes -/
+def rowsOf (fi : FieldInfo) : Nat := (fi.shape.take fi.cls).foldl (· * ·) 1
+
+/-- `FieldCollection(d, label=label)` (collection.py:38-136) on the descriptions of the
+members: incompatible grids -> RuntimeError, a nested collection -> TypeError -/
+def collInfo (label : Option String) : List FieldInfo → Except Err FieldInfo
+  | [] => .error .value                            -- `At least one field must be defined`
+  | fi0 :: rest =>
+    if rest.any (fun fi => fi.grid ≠ fi0.grid) then .error .runtime
+    else if (fi0 :: rest).any (fun fi => fi.cls == 3) then .error .type
+    else .ok
+      { grid := fi0.grid, ncell := fi0.ncell,
+        shape := ((fi0 :: rest).map rowsOf).foldl (· + ·) 0 :: fi0.shape.drop fi0.cls,
+        cls := 3, label := label,
+        members := (fi0 :: rest).map (fun fi => ⟨fi.label, fi.cls, fi.shape, rowsOf fi⟩) }
+
+end fromCollection
+
 /-! ### the world: heap, live fields, storages -/
 
 /-- buffers are identified by their index in `heap`; a live field owns one buffer; storages
@@ -478,6 +539,7 @@ inductive Op (K : Type)
   | viewItems (sid : Nat) (fid : FieldId)                  -- `list(storage.view_field(fid).items())`
   | apply (sid : Nat) (f : Func K) (out : Option Nat)      -- `copy` is `apply ident`
   | fromFields (times : List K) (fids : List Nat) (m : Mode)
+  | fromCollection (sids : List Nat) (label : Option String) (rtol atol : K)
   | poke (sid : Nat) (i : Nat) (vals : List K)             -- `storage.data[i][...] = vals`
 
 section world
@@ -498,7 +560,7 @@ def updStore (w : World K) (sid : Nat) (f : Store K Nat → Store K Nat × Optio
     | (s', none) => ({ w with stores := w.stores.set sid s' }, .ok .unit)
     | (s', some e) => ({ w with stores := w.stores.set sid s' }, .error e)
 
-variable [Add K] [Mul K] [NatCast K] [LT K] [DecidableLT K]
+variable [Add K] [Sub K] [Mul K] [Neg K] [NatCast K] [LT K] [DecidableLT K] [LE K] [DecidableLE K]
 
 /-- the data every `out.append(transformed, t)` of `apply` will copy: the user function applied
 to the field read back from frame `k` -/
@@ -641,6 +703,37 @@ def step (w : World K) : Op K → World K × Except Err (Obs K)
         match construct times (p0.2 :: rest.map (·.2)) (some p0.1) m with
         | .error e => (w, .error e)
         | .ok s' => ({ w with stores := w.stores ++ [s'] }, .ok (.store w.stores.length))
+  | .fromCollection sids label rtol atol =>
+    match sids.mapM (fun i => w.stores[i]?) with
+    | none => (w, .error .bad)
+    | some [] =>                                     -- `return cls()`
+      ({ w with stores := w.stores ++ [Store.new .truncateOnce] }, .ok (.store w.stores.length))
+    | some (s0 :: rest) =>
+      -- `data = [[field] for field in storages[0]]`
+      match Storage.items s0 with
+      | .error e => (w, .error e)
+      | .ok it0 =>
+        match gatherAll rtol atol s0.times (it0.map (fun r => [(r.2.1, r.2.2)])) rest with
+        | .error e => (w, .error e)
+        | .ok data =>
+          -- `fields = [FieldCollection(d, label=label) for d in data]`
+          match data.mapM (fun d => collInfo label (d.map (·.1))) with
+          | .error e => (w, .error e)
+          | .ok infos =>
+            -- `from_fields(times, fields)`: `fields[0]`, grid check, aliasing of the (temporary)
+            -- collections' data = fresh buffers holding the concatenated member data
+            match infos with
+            | [] => (w, .error .index)
+            | fi0 :: more =>
+              if more.any (fun fi => fi.grid ≠ fi0.grid) then (w, .error .value)
+              else
+                let newVals : List (List K) := data.map (fun d => (d.map (fun p => w.deref p.2)).flatten)
+                match construct s0.times (List.range' w.heap.length newVals.length) (some fi0)
+                    .truncateOnce with
+                | .error e => (w, .error e)
+                | .ok s' =>
+                  ({ w with heap := w.heap ++ newVals, stores := w.stores ++ [s'] },
+                   .ok (.store w.stores.length))
   | .poke sid i vals =>
     match w.stores[sid]? with
     | none => (w, .error .bad)
